@@ -38,6 +38,10 @@ type R struct {
 	// Alt, when set, returns the same rule (same id) with exactly one behaviour-relevant field other than the
 	// binding threshold changed (and the probe signature that follows from it)
 	Alt func() *R
+	// Zero: the rule blocks the probe at once (0 admissions), e.g. a specific item of 0 for the probe value
+	Zero bool
+	// NoSetK: K is not simply the threshold field (associated rules): no threshold edits on this rule
+	NoSetK bool
 }
 
 type probeRes struct {
@@ -98,6 +102,16 @@ func flowModule() *module {
 			iv := vk.PickU32(rng, 0, 0, 0, 100, 500, 1000, 1100, 1300, 2000, 2500, 9999, 10000, 20000, 60000)
 			mk0 = func() *flow.Rule {
 				return &flow.Rule{ID: id, Resource: res, TokenCalculateStrategy: flow.Direct, ControlBehavior: flow.Reject, Threshold: float64(k), StatIntervalInMs: iv}
+			}
+			if k >= 2 && rng.Intn(5) == 0 {
+				// a binding ASSOCIATED rule: it meters the traffic of <res>-ref, which the probe feeds with one request
+				// before each of its own: the j-th probe request sees j tokens there, so k-1 are admitted
+				r.K, r.NoSetK = k-1, true
+				aiv := vk.PickU32(rng, 0, 3000, 20000, 700)
+				mk0 = func() *flow.Rule {
+					return &flow.Rule{ID: id, Resource: res, TokenCalculateStrategy: flow.Direct, ControlBehavior: flow.Reject, Threshold: float64(k), StatIntervalInMs: aiv,
+						RelationStrategy: flow.AssociatedResource, RefResource: res + "-ref"}
+				}
 			}
 		case 1: // valid but never binding in the probe
 			switch rng.Intn(3) {
@@ -207,6 +221,9 @@ func flowModule() *module {
 		clk.AddMs(130000) // an empty window whatever the rule's statistic interval (up to 60 s; statistics may be kept across loads)
 		p := probeRes{}
 		for p.N < probeCap {
+			if fe, fb := sentinel.Entry(res + "-ref"); fb == nil { // feed the resource associated rules refer to
+				fe.Exit()
+			}
 			e, b := sentinel.Entry(res)
 			if b != nil {
 				p.Note = b.BlockType().String()
@@ -335,6 +352,26 @@ func hotspotModule() *module {
 		case 0:
 			r.K = k
 			mk = base
+			if rng.Intn(4) == 0 {
+				// a deny-list entry: specific threshold 0 for the probe's value (blocks it at once) or for somebody else
+				var deny func(key string) *R
+				deny = func(key string) *R {
+					x := &R{ID: id, Res: res, Valid: true, K: k, Zero: key == "probe-value"}
+					x.Mk = func() interface{} {
+						y := base()
+						y.SpecificItems[key] = 0
+						return y
+					}
+					x.Lib = x.Mk()
+					other := "somebody-else"
+					if key == other {
+						other = "probe-value"
+					}
+					x.Alt = func() *R { return deny(other) }
+					return x
+				}
+				return deny(vk.PickS(rng, "probe-value", "somebody-else"))
+			}
 		case 1:
 			mk = func() *hotspot.Rule {
 				x := base()
@@ -862,6 +899,11 @@ func genList(m *module, rng *rand.Rand, ress []string, forRes string) []*R {
 }
 
 func expectProbe(rs []*R) (n int, blocker string) {
+	for _, r := range rs {
+		if r.Valid && r.Zero {
+			return 0, r.ID
+		}
+	}
 	n = probeCap
 	for _, r := range rs {
 		if r.Valid && r.K > 0 && r.K < n {
@@ -993,7 +1035,7 @@ func runCase(idx int, m *module, rng *rand.Rand) *caseDesc {
 			// the latest load again with exactly one field of one valid rule changed (same id, fresh objects)
 			var cand []int
 			for j, r := range last.rs {
-				if r.Valid && (r.Alt != nil || (r.K > 0 && m.setK != nil)) {
+				if r.Valid && (r.Alt != nil || (r.K > 0 && m.setK != nil && !r.NoSetK && !r.Zero)) {
 					cand = append(cand, j)
 				}
 			}
@@ -1005,7 +1047,7 @@ func runCase(idx int, m *module, rng *rand.Rand) *caseDesc {
 			j := cand[rng.Intn(len(cand))]
 			old := last.rs[j]
 			var nr *R
-			if old.Alt != nil && (old.K == 0 || m.setK == nil || rng.Intn(2) == 0) {
+			if old.Alt != nil && (old.K == 0 || old.Zero || old.NoSetK || m.setK == nil || rng.Intn(2) == 0) {
 				nr = old.Alt()
 			} else {
 				nk := 1 + (old.K+rng.Intn(6))%8
